@@ -296,7 +296,11 @@ fn value_for(class: &str, rng: &mut StdRng) -> String {
         "template-bad-strftime" => "{{ format_timestamp(value=1700000000, format=\"%Q %!\") }}".into(),
         "template-hostile-call" => ["{{ prefix(value=\"é\", length=1) }}", "{{ hash_int(value=1, length=0) }}", "{{ sanitize(value=none, max_length=0) }}",
                                      "{{ 1 / 0 }}", "{{ hash(value=bumped_branch, length=100000) }}", "{{ prefix_if(value=1) }}",
-                                     "{{ format_timestamp(value=99999999999999999) }}", "{{ undefined_variable.field }}"][rng.gen_range(0..8)].to_string(),
+                                     "{{ format_timestamp(value=99999999999999999) }}", "{{ undefined_variable.field }}",
+                                     "{{ hash_int(value=\"x\", length=100000, allow_leading_zero=true) }}", "{{ hash_int(value=\"x\", length=18446744073709551615, allow_leading_zero=true) }}",
+                                     "{{ hash(value=\"x\", length=18446744073709551615) }}", "{{ prefix(value=\"x\", length=18446744073709551615) }}",
+                                     "{{ sanitize(value=\"x\", max_length=18446744073709551615) }}", "{{ hash_int(value=\"x\", length=-1) }}",
+                                     "{{ format_timestamp(value=-1) }}", "{{ format_timestamp(value=253402300800, format=\"%Y\") }}"][rng.gen_range(0..16)].to_string(),
         "nul" => "a\u{1}\u{1b}[31mb\u{7f}".into(),   // control characters (a NUL cannot be passed in argv)
         _ => "--".into(),
     }
